@@ -229,6 +229,12 @@ func c07Oracle(c *vkit.Check, known *c07Dropped, cs c07Case, round int, offerTex
 			clean = false
 			c.Violation("media-type-changed|offered="+o.Media+"|answered="+a.Media+rk,
 				what(fmt.Sprintf("answer section %d with mid %q is %s, the offered section is %s", j, a.Mid, a.Media, o.Media)), rep)
+		case a.Port != "0" && (a.Media == "audio" || a.Media == "video") && len(a.Formats) == 0:
+			// a section the answerer has no codec for is one it cannot use: it has to be rejected in place
+			// (port 0), not left open without a single format
+			clean = false
+			c.Violation("unusable-section-not-rejected|kind="+a.Media+rk,
+				what(fmt.Sprintf("answer section %d (%s, mid %q) lists no format at all but is not rejected (port %s): m-line %q", j, a.Media, a.Mid, a.Port, a.Lines[0])), rep)
 		}
 	}
 	for i, o := range offer {
